@@ -63,6 +63,7 @@ Proof.
   unfold call_scrypt.
   destruct (scrypt_dom r p 16) eqn:D; smp; [|discriminate].
   destruct (scrypt_params_ok n r p) eqn:K; smp; [|discriminate].
+  destruct (scrypt_alloc_ok n r) eqn:Al; smp; [|discriminate].
   intros H; injection H as <-. smp.
   assert (Pre16 : scrypt_pre n r p 16 = true) by (unfold scrypt_pre; rewrite D, K; reflexivity).
   assert (Pre32 : scrypt_pre n r p 32 = true) by (rewrite (scrypt_pre_dklen n r p 32 16) by lia; exact Pre16).
@@ -245,12 +246,13 @@ Theorem create_total c rnd : (64 <= length rnd)%nat -> exists w rest, create P c
 Proof.
   intros Hl.
   assert (G : forall pw key n, scrypt_dom defaultR pDefault 16 = true -> scrypt_params_ok n defaultR pDefault = true ->
+              scrypt_alloc_ok n defaultR = true ->
               exists w rest, newScryptWalletFileBytes P pw key n pDefault rnd = Ok (w, rest)).
-  { intros pw key n D K. unfold newScryptWalletFileBytes, mustReadBytes.
+  { intros pw key n D K Al. unfold newScryptWalletFileBytes, mustReadBytes.
     replace (32 <=? length rnd)%nat with true by (symmetry; apply Nat.leb_le; lia). smp.
     unfold mustGenerateDerivedScryptKey.
     destruct (call_scrypt P pw (firstn 32 rnd) n defaultR pDefault 16) as [g| |] eqn:C.
-    2,3: unfold call_scrypt in C; rewrite D, K in C; discriminate.
+    2,3: unfold call_scrypt in C; rewrite D, K, Al in C; discriminate.
     destruct (call_scrypt_16 _ _ _ _ _ _ C) as [Pre [W Len]]. smp.
     rewrite skipn_length. replace (16 <=? length rnd - 32)%nat with true by (symmetry; apply Nat.leb_le; lia). smp.
     destruct (reslice_whole g 0 16 _ W) as [ek [Rk Dk]]; [lia|lia|]. rewrite Rk; smp. rewrite Dk.
@@ -265,7 +267,7 @@ Proof.
     unfold NewWalletFileLight, NewWalletFileStandard, NewWalletFileCustomBytesLight, NewWalletFileCustomBytesStandard,
            newScryptWalletFileSecp256k1.
   1,2: match goal with |- context [newScryptWalletFileBytes P ?pw ?k ?n pDefault _] =>
-         destruct (G pw k n) as [w [rest E]]; [reflexivity|reflexivity|]; rewrite E; smp; eexists _, _; reflexivity end.
+         destruct (G pw k n) as [w [rest E]]; [reflexivity|reflexivity|reflexivity|]; rewrite E; smp; eexists _, _; reflexivity end.
   1,2: apply G; reflexivity.
 Qed.
 
